@@ -389,8 +389,8 @@ def monitor_params(case):
             if not V6_FORM.match(v) or again != v:
                 bad.append('V6Params: IPv6Address(%r).compressed = %r, re-parsed %r' % (text, v, again))
     for text, v in Log.idna:
-        if isinstance(v, (bytes, bytearray)) and any(b <= 0x20 for b in v):
-            bad.append('HostPrintable: idna(%r) = %r holds a control character or space' % (text, bytes(v)))
+        if isinstance(v, (bytes, bytearray)) and any(b <= 0x1f for b in v):
+            bad.append('PrintParams: idna(%r) = %r holds a control character' % (text, bytes(v)))
     pre = py_strip_prefix(case.url)
     if all(ord(ch) > 0x1f for ch in pre) and any(ord(ch) <= 0x1f for ch in pre.lower()):
         bad.append('PrintParams: %r.lower() holds a control character' % pre)
@@ -537,6 +537,16 @@ def oracle_norm(ctx, wu, case):
     b = (j.scheme, j.hostname, j.port, j.path, j.query)
     if a != b:
         ctx.fail('reparse-differs', 'components', cj, '%r: %r != %r' % (n, a, b))
+    if case.encoding != 'utf-8':
+        # the stricter reading: normalise again with the SAME document encoding
+        try:
+            clear_caches(wu)
+            n3 = wu.URLInfo.parse(n, encoding=case.encoding).url
+        except Exception as e:
+            n3 = 'exc %s' % type(e).__name__
+        if n3 != n:
+            where = 'userinfo' if (i.userinfo and '@' in n and n3.partition('@')[2] == n.partition('@')[2]) else 'url'
+            ctx.fail('not-idempotent-same-encoding', where, cj, '%r under %s -> %r -> %r' % (case.url, case.encoding, n, n3))
     host = j.host or ''
     m = None if host.endswith(']') else re.search(r':([^:]*)$', host)
     explicit = None
@@ -610,6 +620,27 @@ def gen_query(rng):
     return rng.choice('&&&;').join(parts)
 
 
+USERINFO_POOL = ['u', 'user', 'U%73er', 'a%3Ab', 'a%40b', 'é', '%e9', '%C3%a9', 'a b', 'a+b', '%2F', 'x%', '%ff', '',
+                 # a decoded literal '%': %25XX, %25, lone '%', nested
+                 '%2541', 'user%2541', '%25', '%25%25', 'a%25zz', '%252F', '%25%32%35', '%2525', '%', '%%', '%4', 'a%', '%2', '%25e9',
+                 # escapes that are not UTF-8 (latin-1 / shift_jis bytes), truncated and over-long sequences
+                 '%E9', '%e9%FC', '%FF%FE', '%C3', '%C3%28', '%E2%82', '%F0%9F%92', '%82%A0', '%8E%9A', '%95%5C', '%C0%AF', '%ED%A0%80',
+                 'a%80b', '%A0', '%00', '%0A', '%20', '%7F']
+
+
+def gen_userinfo(rng, password=False):
+    r = rng.random()
+    if r < 0.6:
+        v = rng.choice(USERINFO_POOL)
+    elif r < 0.8:
+        v = ''.join(rng.choice(['%25', '%', 'a', 'Z', '4', '1', 'e', '%e9', '%C3%A9', '%2f', 'é', '+', '%3a', '%40']) for _ in range(rng.randrange(1, 5)))
+    else:
+        v = ''.join('%%%02X' % rng.randrange(256) if rng.random() < 0.7 else rng.choice('ab1') for _ in range(rng.randrange(1, 4)))
+    if password and rng.random() < 0.3:
+        v = rng.choice(['p:w', 'p%3aw', 'p@w', 'P W', '%zz', ':']) + v
+    return v
+
+
 PORT_POOL = sorted(set(NET.values()))
 
 
@@ -664,9 +695,9 @@ class Spec:
         r = rng.random()
         self.user = self.pw = None
         if r < 0.25:
-            self.user = rng.choice(['u', 'user', 'U%73er', 'a%3Ab', 'a%40b', 'é', '%e9', '%C3%a9', 'a b', 'a+b', '%2F', 'x%', '%ff', '', '%2541', '%25', 'a%25zz', '%252F', '%25%32%35'])
+            self.user = gen_userinfo(rng)
             if rng.random() < 0.6:
-                self.pw = rng.choice(['p', 'p:w', 'p%3aw', 'p@w', '%2f', 'ü', '', 'P W', '%zz', '%41', '%2541', '%25', 'x%253A'])
+                self.pw = gen_userinfo(rng, password=True)
         r = rng.random()
         if r < 0.4:
             self.hostkind = 'name'
